@@ -66,8 +66,16 @@ func (lrw *limitedResponseWriter) checkLimit(b []byte) error {
 	// If headers haven't been written yet, set the 413 status
 	if !lrw.wroteHeader {
 		lrw.statusCode = http.StatusRequestEntityTooLarge
+		// The 413 has no body: a Content-Length prepared for the original response
+		// would make the client wait for bytes that never come
+		lrw.ResponseWriter.Header().Set("Content-Length", "0")
 		lrw.ResponseWriter.WriteHeader(http.StatusRequestEntityTooLarge)
 		lrw.wroteHeader = true
+		// Send it now: a caller whose write fails (the reverse proxy) aborts the
+		// request, and an aborted request discards headers that were not sent yet
+		if f, ok := lrw.ResponseWriter.(http.Flusher); ok {
+			f.Flush()
+		}
 	}
 
 	return fmt.Errorf("response body exceeds limit of %d bytes", lrw.limit)
